@@ -323,8 +323,46 @@ func c04Cross(a []string) []string {
 	return res
 }
 
+// c04CpqRm is c04cpq on an index with a HISTORY: decoy shapes are added before the listed shapes (so that the listed shapes get
+// ids that are not 0..n-1), the index is optionally built, then the decoys are removed again.  The answers must be those of
+// the listed shapes alone (defect D52: after Remove the largest live shape id exceeds Len()).  Last argument: "<d>:<b>" =
+// number of decoys, build before removing (0/1).
+func c04CpqRm(a []string) []string {
+	spec := strings.Split(a[len(a)-1], ":")
+	a = a[:len(a)-1]
+	d, pre := pI(spec[0]), spec[1] == "1"
+	n := pI(a[0])
+	idx := s2.NewShapeIndex()
+	var decoys []s2.Shape
+	for k := 0; k < d; k++ {
+		l := s2.RegularLoop(s2.PointFromLatLng(s2.LatLngFromDegrees(-60+7*float64(k), 170-11*float64(k))), s1.Angle(0.02+0.01*float64(k)), 40)
+		decoys = append(decoys, l)
+		idx.Add(l)
+	}
+	var shs []*c04Shape
+	var res []string
+	for i := 0; i < n; i++ {
+		sh := c04Build(a[1+i])
+		shs = append(shs, sh)
+		idx.Add(sh.shape)
+		res = append(res, sh.meta())
+	}
+	if pre {
+		idx.Build()
+	}
+	for _, l := range decoys {
+		idx.Remove(l)
+	}
+	idx.Build()
+	return c04CpqOn(a, n, shs, idx, res)
+}
+
 func c04Cpq(a []string) []string {
 	n, shs, idx, res := c04BuildIndex(a)
+	return c04CpqOn(a, n, shs, idx, res)
+}
+
+func c04CpqOn(a []string, n int, shs []*c04Shape, idx *s2.ShapeIndex, res []string) []string {
 	probes := pPts(a[1+n])
 	sid := map[s2.Shape]int{}
 	for i, sh := range shs {
@@ -363,6 +401,7 @@ func init() {
 	replayers["c04idx"] = c04Idx
 	replayers["c04cross"] = c04Cross
 	replayers["c04cpq"] = c04Cpq
+	replayers["c04cpqrm"] = c04CpqRm
 	generators["c04"] = genC04
 	generators["c06idx"] = genC06Idx
 }
@@ -1139,7 +1178,11 @@ func genC06Idx(g *G) {
 		case 1:
 			g.emit("c04cross", append(args, ptsTok(g.c06QueryEdges(all, 12)))...)
 		default:
-			g.emit("c04cpq", append(args, ptsTok(g.c04Probes(all, cells, 50)))...)
+			pa := append(args, ptsTok(g.c04Probes(all, cells, 50)))
+			g.emit("c04cpq", pa...)
+			if r.Intn(3) == 0 { // the same question on an index from which earlier shapes were removed
+				g.emit("c04cpqrm", append(append([]string(nil), pa...), is(1+r.Intn(3))+":"+is(r.Intn(2)))...)
+			}
 		}
 	}
 }
